@@ -7,6 +7,9 @@ from core import cq, fr, fl, Raw, N, Some, C, dy
 
 ID = 'C20'
 GEN = ['kernels', 'loaders']
+# the scalar kernels of functions.py this property's statement depends on (a change confined to the others is not this property's business;
+# what its own correspondence compares still is)
+KERNELS_USED = []
 PROPS = 'Props/C20.v'
 MODEL_VO = ['Model/Loader.v']
 SHARD = 60
